@@ -1,5 +1,6 @@
 """C15 — JSON Pointer resolution follows RFC 6901 and inverts pointer construction."""
-import random, itertools
+import random, itertools, sys
+sys.setrecursionlimit(20000)
 from .common import *
 
 MODEL_FILES = 'PointerDefs.v (compare_pointers, decode_array_index_from_pointer, get_item_from_pointer, encode_string_as_pointer, cJSONUtils_FindPointerFromObjectTo)'
@@ -114,6 +115,15 @@ def generate(ctx):
             if b'\x00' in p: continue
             for cs in ((1,) if rng.random() < 0.8 else (1, 0)):
                 cases.append(Case('getptr %d %s %s' % (cs, hx(p), tt), {'tags': ['resolve', 'cs' if cs else 'ci'], 'doc': d, 'ptr': p, 'cs': cs}))
+    if ctx.get('seed_index', 0) == 0:
+        for depth in (998, 999, 1000, 1001, 1002, 1500):
+            for kind in ('arr', 'obj'):
+                d = 7
+                for _ in range(depth): d = [d] if kind == 'arr' else Obj([('a', d)])
+                p = tuple([0] * depth)
+                tt = ' '.join(value_tokens(d))
+                cases.append(Case('findptr %s %s' % (pstr(p), tt), {'tags': ['construct', 'deep'], 'doc': d, 'path': p}))
+                cases.append(Case('findptr %s %s' % (pstr(p[:-1]), tt), {'tags': ['construct', 'deep'], 'doc': d, 'path': p[:-1]}))
     # exhaustive pointer strings up to a bound on two fixed documents
     L = 4 if quick else 6
     fixed = [Obj([('', [10, 11, Obj([('~', 1), ('/', 2), ('0', 3)])]), ('0', 0), ('a', [0, 1, 2, 3, 4, 5, 6, 7, 8, 9, 10, 11, 12]), ('A', 1), ('-', 2), ('1', Obj([('1', 1)]))]),
